@@ -664,6 +664,22 @@ func corpus() []*CaseSpec {
 		mk(objS("a", attrS("a", cty.DynamicPseudoType, false)), cfgOf(at("a", &Lit{K: "o", Keys: []string{"x", "y"}, Elems: []*Lit{num("1"), {K: "a", Elems: []*Lit{{K: "z"}, {K: "b", B: true}, str("caf\u00e9")}}}})),
 			`{"a": {"x": 1, "y": [null, true, "caf\u00e9"]}}`),
 	}
+	// four and more labels, siblings sharing every proper prefix: in ONE innermost label
+	// object, in an array of objects at the innermost level, split over duplicate names
+	lab5 := objS("v", attrS("v", cty.Number, false), "l0", lblS(0), "l1", lblS(1), "l2", lblS(2), "l3", lblS(3), "l4", lblS(4))
+	deep := objS("foo", blkS("blocklist", "foo", lab5))
+	sib := func(ls ...string) Item { return bl("foo", ls, at("v", num(fmt.Sprint(len(ls[4]))))) }
+	cD := cfgOf(sib("a", "b", "c", "d", "e1"), sib("a", "b", "c", "d", "e22"), sib("a", "b", "c", "x", "e333"), sib("a", "b", "y", "d", "e1"), sib("a", "b", "y", "d", "e1"))
+	out = append(out,
+		mk(deep, cD, `{"foo": {"a": {"b": {"c": {"d": {"e1": {"v": 2}, "e22": {"v": 3}}, "x": {"e333": {"v": 4}}}, "y": {"d": {"e1": [{"v": 2}, {"v": 2}]}}}}}}`),
+		mk(deep, cD, `{"foo": {"a": {"b": {"c": {"d": [{"e1": {"v": 2}}, {"e22": {"v": 3}}], "x": {"e333": {"v": 4}}}, "y": [{"d": {"e1": {"v": 2}}}, {"d": {"e1": {"v": 2}}}]}}}}`),
+		mk(deep, cD, `{"foo": {"a": {"b": {"c": {"d": {"e1": {"v": 2}}}}}}, "foo": {"a": {"b": {"c": {"d": {"e22": {"v": 3}}, "x": {"e333": {"v": 4}}}}}}, "foo": [{"a": {"b": {"y": {"d": {"e1": {"v": 2}}}}}}, {"a": {"b": {"y": {"d": {"e1": {"v": 2}}}}}}]}`))
+	map4 := objS("foo", blkS("blockmap", "foo", objS("v", attrS("v", cty.Number, false)), "k0", "k1", "k2", "k3"))
+	sib4 := func(ls ...string) Item { return bl("foo", ls, at("v", num(fmt.Sprint(len(ls[3]))))) }
+	cE := cfgOf(sib4("a", "b", "c", "d1"), sib4("a", "b", "c", "d22"), sib4("a", "b", "c", "d333"))
+	out = append(out,
+		mk(map4, cE, `{"foo": {"a": {"b": {"c": {"d1": {"v": 2}, "d22": {"v": 3}, "d333": {"v": 4}}}}}}`),
+		mk(map4, cE, `{"foo": {"a": {"b": {"c": [{"d1": {"v": 2}}, {"d22": {"v": 3}}, {"d333": {"v": 4}}]}}}}`))
 	// a label level given as null or {}: json/spec.md describes no such form (labels are given by
 	// object properties; null is only accepted by the implementation in place of a block BODY), so it
 	// is outside the encodings the property quantifies over: run as a non-encoding (panic check only;
@@ -689,7 +705,7 @@ func corpus() []*CaseSpec {
 
 func runC03(cfg *hv.RunCfg) error {
 	rep := hv.NewReport("C03", cfg.Seed)
-	rep.Rule = "hcldec spec trees (Object/Attr/Literal/Default/Block/BlockList/BlockSet/BlockTuple/BlockMap(1-2 labels)/BlockObject/BlockAttrs/BlockLabel, depth <= 3) with configurations mostly conforming to them (literal attribute values of every JSON type, blocks with 0-4 labels, unknown names, missing required attributes), rendered as native text and as ONE randomly chosen admissible JSON encoding (object / array-of-objects bodies, label objects / arrays / repeated labels, runs merged or split over duplicate names, arrays of bodies, null / [] runs, \"//\" comments, number spellings, escapes, whitespace); 15%+12% mutated into non-encodings (label count, kind confusion, duplicate object keys, null / mistyped / duplicate JSON values); nil and non-nil EvalContext; non-trivial = the configuration has at least one block; distinct by SHA-256 of the replay form"
+	rep.Rule = "hcldec spec trees (Object/Attr/Literal/Default/Block/BlockList/BlockSet/BlockTuple/BlockMap(1-5 label names)/BlockObject(1-5)/BlockAttrs/BlockLabel; block headers with 0-6 labels for every kind that can carry them, BlockLabelSpecs reading each index; depth <= 3) with configurations mostly conforming to them (literal attribute values of every JSON type, sibling blocks of a labelled type sharing a label PREFIX of every length 0..L incl. identical tuples, unknown names, missing required attributes), rendered as native text and as ONE randomly chosen admissible JSON encoding (object / array-of-objects bodies, label objects / arrays / repeated labels, runs merged or split over duplicate names, arrays of bodies, null / [] runs, \"//\" comments, number spellings, escapes, whitespace); 15%+12% mutated into non-encodings (label count, kind confusion, duplicate object keys, null / mistyped / duplicate JSON values); nil and non-nil EvalContext; non-trivial = the configuration has at least one block; distinct by SHA-256 of the replay form"
 	cf := &hv.CaseFile{Dir: cfg.Out, Name: "c03cases",
 		Imports: "From Coq Require Import QArith String.\nFrom HclV Require Import Base.Prelude Body.Laws Body.Native Body.Json Cty.Values Body.JsonEncodes Body.JsonEncodesCheck.",
 		Ctype:   "c03case", Checker: "check_c03_cases",
@@ -728,7 +744,7 @@ func runC03(cfg *hv.RunCfg) error {
 	for _, k := range keys {
 		rep.Histogram["feat:"+k] += g.feat[k]
 	}
-	names, err := cf.Flush(250)
+	names, err := cf.Flush(100)
 	if err != nil {
 		return err
 	}
